@@ -146,6 +146,46 @@ def _mutants(rng, m):
     return out
 
 
+def _symmetric_families():
+    fams = []
+    # neg over neg over ... over a verb (chains of identical scopal predications)
+    for depth in (2, 3, 4):
+        rels = [{"pred": "_rain_v_1", "label": "h1", "args": [["ARG0", "e2"]]}]
+        hcons = []
+        cur = "h1"
+        for i in range(depth):
+            lbl, hole, ev = "h%d" % (10 + 3 * i), "h%d" % (11 + 3 * i), "e%d" % (12 + 3 * i)
+            rels.append({"pred": "neg", "label": lbl, "args": [["ARG0", ev], ["ARG1", hole]]})
+            hcons.append([hole, "qeq", cur])
+            cur = lbl
+        hcons.append(["h0", "qeq", cur])
+        fams.append({"top": "h0", "index": "e2", "rels": rels, "hcons": hcons, "icons": [], "vars": []})
+    # coordination of identical conjuncts: k copies of "the dog barks" under and_c chains
+    for k in (2, 3):
+        rels, hcons, vars_ = [], [], []
+        evs = []
+        for i in range(k):
+            b = 20 + 10 * i
+            x, e = "x%d" % b, "e%d" % (b + 1)
+            rels.append({"pred": "_the_q", "label": "h%d" % (b + 2),
+                         "args": [["ARG0", x], ["RSTR", "h%d" % (b + 3)], ["BODY", "h%d" % (b + 4)]]})
+            rels.append({"pred": "_dog_n_1", "label": "h%d" % (b + 5), "args": [["ARG0", x]]})
+            rels.append({"pred": "_bark_v_1", "label": "h%d" % (b + 6), "args": [["ARG0", e], ["ARG1", x]]})
+            hcons.append(["h%d" % (b + 3), "qeq", "h%d" % (b + 5)])
+            vars_.append([x, [["NUM", "sg"]]])
+            evs.append((e, "h%d" % (b + 6)))
+        prev_e, prev_l = evs[0]
+        for i in range(1, k):
+            c, l = "e%d" % (90 + i), "h%d" % (95 + i)
+            rels.append({"pred": "_and_c", "label": l,
+                         "args": [["ARG0", c], ["L-INDEX", prev_e], ["R-INDEX", evs[i][0]],
+                                  ["L-HNDL", prev_l], ["R-HNDL", evs[i][1]]]})
+            prev_e, prev_l = c, l
+        hcons.append(["h0", "qeq", prev_l])
+        fams.append({"top": "h0", "index": prev_e, "rels": rels, "hcons": hcons, "icons": [], "vars": vars_})
+    return fams
+
+
 def gen(rng, tier):
     cases = []
     n = 120 if tier == "quick" else 1500
@@ -163,6 +203,15 @@ def gen(rng, tier):
                 cases.append({"k": "iso", "m1": b2, "m2": a, "props": True, "kind": kind + "-sym"})
         other = mc.gen_wf_mrs(rng, max_nouns=2)
         cases.append({"k": "iso", "m1": base, "m2": other, "props": props, "kind": "other"})
+    # near-symmetric families: repeated, locally indistinguishable substructures that force
+    # the matcher to backtrack several levels; many renamings of each
+    for fam in _symmetric_families():
+        for _ in range(8 if tier == "quick" else 40):
+            for props in (True, False):
+                cases.append({"k": "iso", "m1": fam, "m2": _rename(rng, fam), "props": props,
+                              "kind": "symmetric-renamed"})
+                cases.append({"k": "iso", "m1": _rename(rng, fam), "m2": _rename(rng, fam), "props": props,
+                              "kind": "symmetric-renamed2"})
     for _ in range(n // 6):
         pool = [mc.gen_wf_mrs(rng, max_nouns=1) for _ in range(3)]
         pool = [p for p in pool if len(p["rels"]) <= 5]
